@@ -573,6 +573,10 @@ def check_encapsulation(ctx, f, g):
             if private and cs and cs <= allowed:
                 allowed.add(k)
                 changed = True
+    # a closure belongs to the function it is written in
+    for k in list(writers):
+        if "::{closure" in k and k.split("::{closure")[0] in allowed:
+            allowed.add(k)
     bad = sorted(set(writers) - allowed)
     ctx.check(not bad, "closed-writer-set", "Board fields are written or lent mutably outside the constructors, their stages, play_unchecked, null_move and the clock setters: %s" % bad,
               sample={"writers": sorted(x.rsplit("::", 1)[-1] for x in writers)})
